@@ -105,6 +105,12 @@ def render_single(c):
         return 'select %s from %s union select a from int1.t2' % (a, t1)
     if b == 'cte':
         return 'with cc as (select a, c from int1.t2) select %s, cc.c from %s join cc on %s = cc.a' % (a, t1, a)
+    if b == 'cte-mixedcase':
+        return 'with Cc as (select a, c from int1.t2) select %s, Cc.c from %s join Cc on %s = Cc.a' % (a, t1, a)
+    if b == 'cte-only':
+        return 'with Totals as (select %s, %s from %s) select a from Totals where b = 1' % (a, bb, t1)
+    if b == 'cast':
+        return 'select cast(%s as int), %s from %s where cast(%s as int) = 1' % (a, bb, t1, bb)
     if b == 'star-qualified':
         return 'select %s* from %s where %s = 1' % (q if q else 't1.', t1, bb)
     if b == 'distinct':
